@@ -20,6 +20,8 @@ fn usage() -> ! {
 
 fn main() {
 	let args: Vec<String> = std::env::args().collect();
+	// panics of the library under test are captured by driver::guard, not printed
+	driver::install_panic_hook();
 	if args.len() < 2 {
 		usage();
 	}
